@@ -87,16 +87,21 @@ def main():
             print(json.dumps({'id': sid, 'status': 'suite fails with the change', 'log': r.stdout[-400:]})); return 2
         # demonstration, both ways
         extra = demo_flags(open(demo, errors='replace').read())
-        if prop == 'C19':       # the demonstrations of C19 are about the unsigned-char configuration
-            extra = [f for f in extra if f not in ('-fsigned-char', '-funsigned-char')] + ['-funsigned-char']
-            if '-DNDEBUG' not in extra:
-                extra.append('-DNDEBUG')
+        variants = [extra]
+        if prop == 'C19':       # the demonstrations of C19 are about one char signedness: try both
+            base = [f for f in extra if f not in ('-fsigned-char', '-funsigned-char')]
+            if '-DNDEBUG' not in base:
+                base.append('-DNDEBUG')
+            variants = [base + ['-funsigned-char'], base + ['-fsigned-char']]
         res = {}
-        for name, root in (('original', orig), ('changed', chg)):
-            b = build_demo(root, demo, os.path.join(root, 'demo'), extra)
-            if b.returncode != 0:
-                print(json.dumps({'id': sid, 'status': 'demo does not build on ' + name, 'log': b.stdout[-800:]})); return 2
-            res[name] = run_demo(os.path.join(root, 'demo'))
+        for extra in variants:
+            for name, root in (('original', orig), ('changed', chg)):
+                b = build_demo(root, demo, os.path.join(root, 'demo'), extra)
+                if b.returncode != 0:
+                    print(json.dumps({'id': sid, 'status': 'demo does not build on ' + name, 'log': b.stdout[-800:]})); return 2
+                res[name] = run_demo(os.path.join(root, 'demo'))
+            if res['original'][0] == 0 and res['changed'][0] != 0:
+                break
         meta['ran'].append('demo (flags %s): original rc=%d, changed rc=%d' % (' '.join(extra) or 'default', res['original'][0], res['changed'][0]))
         if res['original'][0] != 0 or res['changed'][0] == 0:
             print(json.dumps({'id': sid, 'status': 'demo does not discriminate', 'original': res['original'], 'changed': res['changed']})); return 2
